@@ -8,14 +8,14 @@ ids = [p["id"] for p in props]
 TRUST = ("TLC 1.8.0 and the TLA+ modules in spec/; the Go harness executor/projector (independent archive/zip + "
          "encoding/xml reader, no oracle logic); the Go toolchain; bounds stated in the evidence file")
 
-CHECKS = {
- "C08": dict(module="Body", ref="§5 C08",
-   text="The reference list machine Body.tla is model-checked exhaustively (invariants + action properties) and every "
-        "operation sequence to the BFS depth, plus seeded random long ones, is replayed on the real library; the in-memory "
-        "body and the saved main part after every step are judged by Body_Trace.tla. Exhaustive small-scope over histories "
-        "is the right level for index/handle arithmetic over a heterogeneous list.",
-   technique="TLA+ spec Body; TLC exhaustive MC + TLC-generated behaviours replayed on the library + TLC trace judge"),
-}
+import importlib.util, glob
+CHECKS = {}
+for path in sorted(glob.glob(os.path.join(V, "props", "C*.py"))):
+    sp = importlib.util.spec_from_file_location("p_" + os.path.basename(path)[:-3], path)
+    mod = importlib.util.module_from_spec(sp)
+    sp.loader.exec_module(mod)
+    if getattr(mod, "MANIFEST", None):
+        CHECKS[os.path.basename(path)[:-3]] = mod.MANIFEST
 
 NA = {}
 
